@@ -114,6 +114,10 @@ def handle (req : Sexp) : Sexp :=
     match nats? xs with
     | some l => exc natss (nonEmptyProperSubsets l)
     | none => bad
+  | .list [.atom "groups", ks] =>
+    match keys? ks with
+    | some ks => .list ((groupByKind ks).map (fun g => keysS g.2))
+    | none => bad
   | .list [.atom "allcomb", ks] =>
     match keys? ks with
     | some ks => .list ((allCombinations ks).map keysS)
